@@ -23,6 +23,12 @@ def handle (j : Json) : Json :=
     | .updated vs ref => Json.mkObj [("res", "updated"), ("chain", jstrs (vs.map (·.commit))), ("ref", ref)]
     | .nothing vs => Json.mkObj [("res", "nothing"), ("chain", jstrs (vs.map (·.commit))), ("ref", "")]
     | .nonFastForward vs => Json.mkObj [("res", "nonFF"), ("chain", jstrs (vs.map (·.commit))), ("ref", "")]
+  | "mergeAll" =>
+    match mergeAll (chain j "local") (chain j "remote") with
+    | .invalidRemote vs => Json.mkObj [("res", "invalidRemote"), ("chain", jstrs (vs.map (·.commit))), ("ref", "")]
+    | .merged (.updated vs ref) => Json.mkObj [("res", "updated"), ("chain", jstrs (vs.map (·.commit))), ("ref", ref)]
+    | .merged (.nothing vs) => Json.mkObj [("res", "nothing"), ("chain", jstrs (vs.map (·.commit))), ("ref", "")]
+    | .merged (.nonFastForward vs) => Json.mkObj [("res", "nonFF"), ("chain", jstrs (vs.map (·.commit))), ("ref", "")]
   | "validate" => Json.mkObj [("valid", Json.bool (validate (chain j "versions")))]
   | "keysAt" =>
     let vs := chain j "versions"
